@@ -103,7 +103,13 @@ class RuleGen:
         prims = [i for i, p in enumerate(parts) if isinstance(p, Prim)]
         if prims and self.r.random() < 0.7:
             i = self.r.choice(prims)
-            parts[i] = Prim(self.g.twin(parts[i].v))
+            new = self.g.twin(parts[i].v)
+            for _ in range(4):          # prefer an equal value of ANOTHER type (1 / 1.0 / True)
+                if type(new) is not type(parts[i].v):
+                    break
+                new = self.g.twin(parts[i].v)
+            if isinstance(new, (str, int, float)):
+                parts[i] = Prim(new)
         pt = PathT(parts, list(rt.path.mods))
         sel = self.selected(pt, doc)
         cond = self.cg.tree([x for x in sel] or [1, "a"], depth=self.r.choice([0, 1]), classes=VALUE_CLASSES, null_p=0.05)
